@@ -92,3 +92,63 @@ func ZZ_C13_Cache() {
 		vAssert(len(ev.atomic) == 0, "c13.cache.canary")
 	}
 }
+
+func init() { vRegister("ZZ_C13_Race", ZZ_C13_Race) }
+
+// zzYieldClock is a clock whose reading is a scheduling point (a write samples the clock at its start).
+type zzYieldClock struct{ now int64 }
+
+func (c *zzYieldClock) NowNano() int64 {
+	vYield()
+	var t int64
+	vAtomic(func() { t = c.now })
+	return t
+}
+func (c *zzYieldClock) Tick(d time.Duration) <-chan time.Time { return nil }
+
+// ZZ_C13_Race — the schedule named in the property: a write samples the clock, maintenance then runs at a later
+// clock value, and only then does the write's event reach the timer wheel (its deadline may already lie behind the
+// wheel's time). Afterwards (no operation in flight) CleanUp at T with deadline + one tick < T must have removed
+// and reported the entry.
+func ZZ_C13_Race() {
+	clk := &zzYieldClock{now: 1 << 40}
+	var ev []zzEvent
+	ttls := []time.Duration{1, time.Second, 90 * time.Second}
+	calc := &zzPerKeyExpiry{}
+	calc.d[1] = ttls[vChoice("ttl", len(ttls))]
+	c := Must(&Options[int, int]{
+		Clock:            clk,
+		Executor:         func(fn func()) { fn() },
+		Logger:           &NoopLogger{},
+		ExpiryCalculator: calc,
+		OnAtomicDeletion: func(e DeletionEvent[int, int]) {
+			vAtomic(func() { ev = append(ev, zzEvent{key: e.Key, val: e.Value, cause: e.Cause}) })
+		},
+	})
+	jumps := []int64{3 << 30, int64(5 * time.Minute), int64(3 * time.Hour)}
+	jump := jumps[vChoice("jump", len(jumps))]
+	writeDone := int64(0)
+	vPar(func() {
+		c.Set(1, 101)
+		vAtomic(func() { writeDone = clk.now })
+	}, func() {
+		vAtomic(func() { clk.now += jump })
+		c.CleanUp()
+	})
+	// quiescent now. Let more than one tick pass after both the deadline and the write's return, then sweep.
+	deadlineUpper := writeDone + int64(calc.d[1]) // the write sampled its clock no later than it returned
+	tick := int64(1) << 30
+	vAtomic(func() { clk.now += 3 * tick })
+	c.CleanUp()
+	T := clk.now
+	if deadlineUpper+tick < T && writeDone+tick < T {
+		found := false
+		for _, e := range ev {
+			if e.key == 1 && e.cause == CauseExpiration {
+				found = true
+			}
+		}
+		vAssert(found, "c13.race.expired_entry_reported_within_one_tick")
+		vAssert(c.EstimatedSize() == 0, "c13.race.expired_entry_not_counted")
+	}
+}
